@@ -31,6 +31,7 @@ import (
 	"strconv"
 	"strings"
 	"sync"
+	"sync/atomic"
 	"syscall"
 	"testing"
 	"testing/synctest"
@@ -231,6 +232,7 @@ type Exch struct {
 }
 
 type proxyWorld struct {
+	inflight atomic.Int32 // client exchanges on their way (see clientTask)
 	p           *ProxyPlan
 	sim         *zzsim.Sched
 	res         *Result
@@ -404,7 +406,12 @@ func (w *proxyWorld) originHandler(rw http.ResponseWriter, req *http.Request) {
 				// (the proxy's retry after the 416)
 				continue
 			}
-			if kv[0] == "X-Sim-Raw" || kv[0] == "X-Sim-Raw-NoRange" {
+			if kv[0] == "X-Sim-Raw-Range" && req.Header.Get("Range") == "" {
+				// the mirror image: a well-formed, storable answer to requests without Range, hostile bytes
+				// for Range requests (an unasked-for 304, a 206 that fits nothing) once something is stored
+				continue
+			}
+			if kv[0] == "X-Sim-Raw" || kv[0] == "X-Sim-Raw-NoRange" || kv[0] == "X-Sim-Raw-Range" {
 				// hostile origin: literal bytes instead of a well-formed response
 				n, _ := strconv.Atoi(kv[1])
 				e.Res, e.Status = ri, -1
@@ -972,8 +979,20 @@ func (w *proxyWorld) clientTask(ci int) {
 	}
 	var pipe []held
 	var pipeBuf []byte
+	// one exchange of this client is on its way (sent or being sent, not yet finished); kept as a
+	// counter of its own because the exchange records are written without a lock by their client
+	mine := false
+	defer func() {
+		if mine {
+			w.inflight.Add(-1)
+		}
+	}()
 	for qi := range w.p.Clients[ci] {
 		q := w.p.Clients[ci][qi]
+		if mine {
+			w.inflight.Add(-1)
+			mine = false
+		}
 		if q.AtMs > 0 {
 			at := w.start.Add(time.Duration(q.AtMs) * time.Millisecond)
 			if time.Now().Before(at) {
@@ -1005,15 +1024,7 @@ func (w *proxyWorld) clientTask(ci int) {
 			// sent and nothing can be done about a body that ends early, and a store in progress writes
 			// to a temporary file of its own. So the disk loses bytes only at instants at which no client
 			// is waiting for anything, and only from files that are entries.
-			w.mu.Lock()
-			busy := false
-			for _, e := range w.exch {
-				if e.RecvSeq == 0 {
-					busy = true
-				}
-			}
-			w.mu.Unlock()
-			if busy {
+			if w.inflight.Load() > 0 {
 				w.res.probe("disk_damage_skipped_exchange_in_flight")
 				continue
 			}
@@ -1043,6 +1054,8 @@ func (w *proxyWorld) clientTask(ci int) {
 		w.mu.Lock()
 		w.exch = append(w.exch, ex)
 		w.mu.Unlock()
+		w.inflight.Add(1)
+		mine = true
 		if cc != nil && !q.SameConn {
 			cc.close()
 			cc = nil
